@@ -364,6 +364,9 @@ def run_known(chk, impl, model, name, engines):
             chk.notes.append('known finding %s did not reproduce' % fn)
 
 
+GEN_OPTS = dict()   # C01 runs the generator with its defaults
+
+
 def gen_programs(chk, salt, n, opts=None):
     rng = chk.rng(salt)
     progs = []
@@ -386,7 +389,7 @@ def run(chk):
     n = 800 if quick else 3000
     run_corpus(chk, impl, model, 'c01', ENGINES)
     run_known(chk, impl, model, 'c01', ENGINES)
-    progs = gen_programs(chk, 'c01', n)
+    progs = gen_programs(chk, 'c01', n, GEN_OPTS)
     nwd, ndiv = differential(chk, impl, model, progs, ENGINES, 'gen')
     chk.cov['rule'] = ('seeded well-defined MIR programs (tools/gen_c01_prog.py) run by the extracted Coq reference '
                       'interpreter, MIR_interp and MIR_gen -O0..-O3; compared: results, final bytes of writable '
